@@ -1102,8 +1102,9 @@ class PureScheduler:                                    # pylint: disable=r0902
             # find out which ones really can be added
             added = 0
             for candidate_next in possible_next_jobs:
-                # do not add an job twice
-                if candidate_next.is_running():
+                # do not add an job twice: a job that has a task already
+                # may still be waiting for a slot in the window
+                if candidate_next.is_scheduled():
                     continue
                 # we can start only if all requirements are satisfied
                 # at this point entry points have is_running() -> return True
